@@ -66,11 +66,33 @@ def base_type(ty):
     return m.group(0) if m else ty
 
 
-def table_entry(table, s):
-    """reviewed entry of a sink: by its name based key or by its origin based key"""
+def table_entry(table, s, T=None):
+    """reviewed entry of a sink: by its name based key or by its origin based key.  A sink inside a private helper that has no
+    entry of its own inherits the entry its callers have for the same operation on the same operands - code that was moved
+    out of reviewed functions into a helper they all call (`extract function`) stays reviewed; every caller must have it."""
     e = table.get(s.key)
     if e is None:
         e = table.get(getattr(s, "okey", s.key))
+    if e is None and T is not None:
+        root = s.body.root or s.body.path
+        callers = T.caller_roots(s.body)
+        if callers:
+            found = []
+            for cr in callers:
+                hit = None
+                for k in (s.key, getattr(s, "okey", s.key)):
+                    if not k.startswith(root + "#"):
+                        continue
+                    tail = k[len(root):]
+                    base = tail.rsplit("#", 1)[0]
+                    for n in range(0, 4):
+                        hit = hit or table.get("%s%s#%d" % (cr, base, n))
+                found.append(hit)
+            if all(f is not None for f in found):
+                e = found[0]
+                if isinstance(e, str):
+                    e = e + " [inherited from the reviewed callers %s: the code was moved into this helper]" % ", ".join(
+                        c.split("::")[-1] for c in sorted(callers))
     return e
 
 
@@ -150,6 +172,20 @@ class Taint:
             # closure invoked through Fn*/call*: resolved to the closure body by rustc when static
         self.call_targets[key] = out
         return out
+
+    def caller_roots(self, body):
+        """root functions (closures folded into their creators) that call `body`"""
+        if getattr(self, "_callers", None) is None:
+            self._callers = defaultdict(set)
+            for b in self.reach.values():
+                if "::promoted[" in b.path:
+                    continue
+                for cs in b.calls():
+                    for t in self.targets(b, cs):
+                        self._callers[t.key].add(b.root or b.path)
+        me = body.root or body.path
+        key = body.key if not body.root else (body.crate + "::" + body.root)
+        return {c for c in self._callers.get(key, ()) if c != me}
 
     def compute_reachability(self):
         work = list(self.entries)
@@ -834,6 +870,51 @@ class Guards:
         for g in self.guards:
             g.L = self._fresh(g.bb, g.L)
             g.R = self._fresh(g.bb, g.R)
+        self._import_callee_validations(T, body, O)
+
+    def _import_callee_validations(self, T, body, O):
+        """`check(a, b, n)?;` - a local function that returns Result, whose result is propagated with `?`, and that compares
+        its parameters on a branch one side of which can only fail: on the continuation those comparisons hold for the
+        arguments.  They are added as (non-direct) guards at the call, with the parameters replaced by the arguments."""
+        from .rules import substitute
+        for cs in body.calls():
+            if cs.fn is None or cs.target is None or "Result<" not in (cs.term.get("dty") or ""):
+                continue
+            # the result must be consumed by `?`
+            used = False
+            for c2 in body.calls():
+                if c2.name == "branch" and c2.bb in body.reach_from(cs.target) and c2.args and c2.args[0].get("k") in ("copy", "move") \
+                        and not cs.dest["p"] and c2.args[0]["pl"]["l"] == cs.dest["l"]:
+                    used = True
+            if not used:
+                continue
+            for t in T.targets(body, cs):
+                if t.crate != body.crate or t.def_kind not in ("Fn", "AssocFn"):
+                    continue
+                key = ("val", t.key)
+                cache = getattr(T, "_valcache", None)
+                if cache is None:
+                    cache = T._valcache = {}
+                if key not in cache:
+                    Ot = T.origins(t)
+                    cache[key] = [c for c in F.comparisons(t, Ot) if c.validating and c.lex is not None]
+                vals = cache[key]
+                if not vals:
+                    continue
+                pn = t.param_names()
+                args = O.call_args(cs)
+                sub = {pn[i + 1]: a for i, a in enumerate(args) if pn.get(i + 1)}
+                for c in vals:
+                    g = Guard()
+                    g.bb, g.kind, g.op = cs.bb, "cmp", "Le"
+                    g.direct = g.negated = False
+                    l = substitute(c.lex, sub)
+                    r = substitute(c.rex, sub) if c.rex is not None else None
+                    g.L = leaves(l, opaque=("min",))
+                    g.R = leaves(r, opaque=("min",)) if r is not None else set()
+                    g.Lc = g.Rc = None
+                    g.text = "%s validated by %s (%s)" % (c.raw[:80], X.short(t.path), cs.loc())
+                    self.guards.append(g)
 
     def _fresh(self, bb, ls):
         out = set()
